@@ -93,6 +93,69 @@ def check_eq(chk, repo):
     chk.decide("C18.EQ", cons + "#args", True if argcmp else None,
                "self.args == other.args is part of the result" if argcmp else "parameter comparison not recognised",
                rel=rel, node=f)
+    # truth table: with K = "same kind" and A = "equal parameters" standing for the kind test and the parameter comparison,
+    # the result must be K and A on all four valuations (guard clauses `if <test>: return <constant>` are followed)
+    def abstract(e):
+        """expression -> function of (K, A) or None"""
+        if isinstance(e, ast.Constant) and isinstance(e.value, bool):
+            return lambda K, A, v=e.value: v
+        if isinstance(e, ast.Name) and e.id == "NotImplemented":
+            return lambda K, A: False      # the other operand is asked: it answers with the same definition
+        if any(e is n for n in calls) or any(e is n for n in typecmp):
+            neg = any(e is n for n in typecmp) and isinstance(e.ops[0], (ast.IsNot, ast.NotEq))
+            return (lambda K, A: not K) if neg else (lambda K, A: K)
+        if isinstance(e, ast.Compare) and len(e.ops) == 1 and isinstance(e.ops[0], (ast.Eq, ast.NotEq)):
+            sides = [e.left, e.comparators[0]]
+            if all(isinstance(s_, ast.Attribute) and s_.attr == "args" and isinstance(s_.value, ast.Name) for s_ in sides) \
+                    and {s_.value.id for s_ in sides} == set(params[:2]):
+                return (lambda K, A: A) if isinstance(e.ops[0], ast.Eq) else (lambda K, A: not A)
+        if isinstance(e, ast.UnaryOp) and isinstance(e.op, ast.Not):
+            g = abstract(e.operand)
+            return None if g is None else (lambda K, A: not g(K, A))
+        if isinstance(e, ast.BoolOp):
+            gs = [abstract(v) for v in e.values]
+            if any(g is None for g in gs):
+                return None
+            if isinstance(e.op, ast.And):
+                return lambda K, A: all(g(K, A) for g in gs)
+            return lambda K, A: any(g(K, A) for g in gs)
+        return None
+
+    def run_body(stmts, K, A):
+        for s_ in stmts:
+            if isinstance(s_, ast.Expr) and isinstance(s_.value, ast.Constant):
+                continue
+            if isinstance(s_, ast.Return):
+                g = abstract(s_.value) if s_.value is not None else None
+                return None if g is None else ("ret", g(K, A))
+            if isinstance(s_, ast.If):
+                g = abstract(s_.test)
+                if g is None:
+                    return None
+                r = run_body(s_.body if g(K, A) else s_.orelse, K, A)
+                if r is None:
+                    return None
+                if r[0] == "ret":
+                    return r
+                continue
+            return None
+        return ("fall",)
+    table, okt = {}, True
+    for K in (True, False):
+        for A in (True, False):
+            r = run_body(f.body, K, A)
+            if r is None or r[0] != "ret":
+                okt = None
+                break
+            table[(K, A)] = r[1]
+        if okt is None:
+            break
+    if okt is not None:
+        wrong = [(K, A) for (K, A), v in table.items() if v != (K and A)]
+        chk.decide("C18.EQ", cons + "#truth-table", True if not wrong else False,
+                   "__eq__ is (same kind) and (equal parameters) on all four cases" if not wrong else
+                   f"__eq__ answers {table[wrong[0]]} for same-kind={wrong[0][0]}, equal-parameters={wrong[0][1]}", rel=rel, node=f,
+                   nontrivial=False)
     # every return combines both
     rets = [r for r in ast.walk(f) if isinstance(r, ast.Return)]
     chk.decide("C18.EQ", cons + "#returns", True if len(rets) >= 1 and all(r.value is not None for r in rets) else False,
@@ -123,6 +186,35 @@ def check_eq(chk, repo):
             if isinstance(g, ast.FunctionDef) and g.name in ("__eq__", "__ne__", "__repr__"):
                 chk.decide("C18.EQ", f"{r2[:-3]}.{cname}.{g.name}", None,
                            f"{cname} overrides {g.name}; only the base class definition was analysed", rel=r2, node=g)
+
+
+def check_enums(chk, repo):
+    """members of StorageType / StepType have pairwise different values (equal values make one member an alias of the other:
+    `StorageType.RAM is StorageType.DISK`)"""
+    for ename in ("StorageType", "StepType"):
+        try:
+            rel, c = repo.find_class(ename)
+        except Exception:
+            continue
+        vals = {}
+        for b_ in c.body:
+            if isinstance(b_, ast.Assign) and len(b_.targets) == 1 and isinstance(b_.targets[0], ast.Name) and isinstance(b_.value, ast.Constant):
+                vals.setdefault(repr(b_.value.value), []).append(b_.targets[0].id)
+        dup = [v for v in vals.values() if len(v) > 1]
+        chk.decide("C18.FLAGS", f"{rel[:-3]}.{ename}#distinct-members", True if not dup else False,
+                   f"{ename}: members have distinct values" if not dup else f"{ename}: {dup[0]} share one value and are the same member",
+                   rel=rel, node=c, nontrivial=False)
+    # the constructor of the action base class keeps its arguments where the accessors read them
+    rel, c = repo.find_class("CheckpointAction")
+    init = repo.method(rel, "CheckpointAction", "__init__", required=False)
+    if init is not None and init.args.vararg is not None:
+        stored = any(isinstance(a, ast.Assign) and any(isinstance(t, ast.Attribute) and t.attr == "args" and isinstance(t.value, ast.Name)
+                                                       and t.value.id == "self" for t in a.targets)
+                     and isinstance(a.value, ast.Name) and a.value.id == init.args.vararg.arg for a in ast.walk(init))
+        chk.decide("C18.ARGS", f"{rel[:-3]}.CheckpointAction.__init__#stores-args", True if stored else False,
+                   "the constructor stores its arguments in self.args" if stored else
+                   "the constructor does not store its arguments in self.args: every accessor, comparison and repr fails",
+                   rel=rel, node=init, nontrivial=False)
 
 
 def check_args(chk, repo):
@@ -473,5 +565,6 @@ def run(chk, ctx):
     chk.files.add("schedule.py")
     check_eq(chk, repo)
     check_args(chk, repo)
+    check_enums(chk, repo)
     check_range(chk, repo)
     check_yields(chk, ctx)
